@@ -3,7 +3,7 @@ correspondence runs tie the model to the code, and what is assumed."""
 
 PROPS = {
     "C19": {
-        "theorems": ["SV.Props.C19.id_in_range", "SV.Props.C19.id_depends_on_suffix_only", "SV.Props.C19.id_onto", "SV.Props.C19.mask_segments_sound", "SV.Props.C19.sharded_put_then_read", "SV.Props.C19.sharded_remove_then_read", "SV.Props.C19.sharded_invariant", "SV.Props.C19.sharded_range_is_union"],
+        "theorems": ["SV.Props.C19.sharded_history_is_one_map", "SV.Props.C19.sharded_range_visits_the_union_once", "SV.Props.C19.id_in_range", "SV.Props.C19.id_depends_on_suffix_only", "SV.Props.C19.id_onto", "SV.Props.C19.mask_segments_sound", "SV.Props.C19.sharded_put_then_read", "SV.Props.C19.sharded_remove_then_read", "SV.Props.C19.sharded_invariant", "SV.Props.C19.sharded_range_is_union"],
         "modules": ["SV.Props.C19"],
         "runs": [{"component": "shard", "thorough_seeds": 2}],
         "rule": "histories of masks/id/onto/maskseg operations; distinct = distinct (operation kind, output) pairs observed on the implementation; "
@@ -86,7 +86,7 @@ PROPS = {
         ],
     },
     "C12": {
-        "theorems": ["SV.Props.C12.cache_protects_accepted_keys", "SV.Props.C12.cache_protected_forever", "SV.Props.C12.cache_all_immune_refused", "SV.Props.C12.cache_refusal_changes_nothing", "SV.Props.C12.cache_never_overwrites", "SV.Props.C12.source_capacity_test_is_the_models", "SV.Props.C12.source_chunk_config_is_the_models", "SV.Props.C12.add_keeps_immune", "SV.Props.C12.eviction_skips_immune", "SV.Props.C12.protected_forever", "SV.Props.C12.protected_when_added", "SV.Props.C12.protected_when_immunized", "SV.Props.C12.all_immune_refused", "SV.Props.C12.refusal_changes_nothing", "SV.Props.C12.never_overwrites", "SV.Props.C12.legacy_F10"],
+        "theorems": ["SV.Props.C12.single_chunk_refines_fifo_queue", "SV.Props.C12.fifo_refusal_iff", "SV.Props.C12.cache_protects_accepted_keys", "SV.Props.C12.cache_protected_forever", "SV.Props.C12.cache_all_immune_refused", "SV.Props.C12.cache_refusal_changes_nothing", "SV.Props.C12.cache_never_overwrites", "SV.Props.C12.source_capacity_test_is_the_models", "SV.Props.C12.source_chunk_config_is_the_models", "SV.Props.C12.add_keeps_immune", "SV.Props.C12.eviction_skips_immune", "SV.Props.C12.protected_forever", "SV.Props.C12.protected_when_added", "SV.Props.C12.protected_when_immunized", "SV.Props.C12.all_immune_refused", "SV.Props.C12.refusal_changes_nothing", "SV.Props.C12.never_overwrites", "SV.Props.C12.legacy_F10"],
         "modules": ["SV.Props.C12"],
         "runs": [{"component": "immunity", "thorough_seeds": 2}],
         "rule": "random HasOrAdd/Put/Remove/ImmunizeKeys/Clear histories over 4-12 keys through ImmunityCache and CrossTxCache, 1-16 chunks, capacities at their lower bounds, sizes 0..500; thorough adds all histories of length 5 over an 11-operation alphabet (single chunk); distinct = distinct (operation kind, canonical output incl. full dump) pairs",
@@ -94,7 +94,7 @@ PROPS = {
         "assumptions": ["Go maps and container/list are modelled (association lists, lists); chunk routing by fnv32 is modelled exactly; item sizes are >= 0"],
     },
     "C13": {
-        "theorems": ["SV.Props.C13.holds_for_every_accepted_configuration", "SV.Props.C13.cache_never_exceeds_max", "SV.Props.C13.cache_views_agree", "SV.Props.C13.cache_flags_truthful", "SV.Props.C13.cache_remove_withdraws_immunity", "SV.Props.C13.cache_immunize_gate_refuses_whole", "SV.Props.C13.source_capacity_test_is_the_models", "SV.Props.C13.source_chunk_config_is_the_models", "SV.Props.C13.chunk_invariant", "SV.Props.C13.flags_truthful", "SV.Props.C13.eviction_is_fifo", "SV.Props.C13.eviction_partition", "SV.Props.C13.remove_withdraws_immunity", "SV.Props.C13.immunize_gate"],
+        "theorems": ["SV.Props.C13.single_chunk_refines_fifo_queue", "SV.Props.C13.fifo_refusal_iff", "SV.Props.C13.fifo_eviction_in_batches", "SV.Props.C13.holds_for_every_accepted_configuration", "SV.Props.C13.cache_never_exceeds_max", "SV.Props.C13.cache_views_agree", "SV.Props.C13.cache_flags_truthful", "SV.Props.C13.cache_remove_withdraws_immunity", "SV.Props.C13.cache_immunize_gate_refuses_whole", "SV.Props.C13.source_capacity_test_is_the_models", "SV.Props.C13.source_chunk_config_is_the_models", "SV.Props.C13.chunk_invariant", "SV.Props.C13.flags_truthful", "SV.Props.C13.eviction_is_fifo", "SV.Props.C13.eviction_partition", "SV.Props.C13.remove_withdraws_immunity", "SV.Props.C13.immunize_gate"],
         "modules": ["SV.Props.C13"],
         "runs": [{"component": "immunity", "thorough_seeds": 2}],
         "rule": "random HasOrAdd/Put/Remove/ImmunizeKeys/Clear histories over 4-12 keys through ImmunityCache and CrossTxCache, 1-16 chunks, capacities at their lower bounds, sizes 0..500; thorough adds all histories of length 5 over an 11-operation alphabet (single chunk); distinct = distinct (operation kind, canonical output incl. full dump) pairs",
@@ -102,7 +102,7 @@ PROPS = {
         "assumptions": ["Go maps and container/list are modelled (association lists, lists); chunk routing by fnv32 is modelled exactly; item sizes are >= 0"],
     },
     "C15": {
-        "theorems": ["SV.Props.C15.source_eviction_test_is_the_models", "SV.Props.C15.invariant_put", "SV.Props.C15.invariant_hasOrAdd", "SV.Props.C15.invariant_get", "SV.Props.C15.invariant_remove", "SV.Props.C15.eviction_drops_lru_suffix", "SV.Props.C15.eviction_minimal", "SV.Props.C15.put_refreshes", "SV.Props.C15.negative_size_rejected", "SV.Props.C15.evicted_flag_truthful", "SV.Props.C15.get_refreshes", "SV.Props.C15.hasOrAdd_flags", "SV.Props.C15.simple_bound", "SV.Props.C15.simple_evicts_lru", "SV.Props.C15.put_invokes_each_handler_once", "SV.Props.C15.hasOrAdd_invokes_iff_added", "SV.Props.C15.registry_is_a_set", "SV.Props.C15.legacy_F11"],
+        "theorems": ["SV.Props.C15.sized_lru_refines_reference", "SV.Props.C15.plain_lru_refines_reference", "SV.Props.C15.reference_never_evicts_just_written", "SV.Props.C15.reference_evicts_least_recent_first", "SV.Props.C15.reference_flags_truthful", "SV.Props.C15.reference_bytes_is_sum", "SV.Props.C15.source_eviction_test_is_the_models", "SV.Props.C15.invariant_put", "SV.Props.C15.invariant_hasOrAdd", "SV.Props.C15.invariant_get", "SV.Props.C15.invariant_remove", "SV.Props.C15.eviction_drops_lru_suffix", "SV.Props.C15.eviction_minimal", "SV.Props.C15.put_refreshes", "SV.Props.C15.negative_size_rejected", "SV.Props.C15.evicted_flag_truthful", "SV.Props.C15.get_refreshes", "SV.Props.C15.hasOrAdd_flags", "SV.Props.C15.simple_bound", "SV.Props.C15.simple_evicts_lru", "SV.Props.C15.put_invokes_each_handler_once", "SV.Props.C15.hasOrAdd_invokes_iff_added", "SV.Props.C15.registry_is_a_set", "SV.Props.C15.legacy_F11"],
         "modules": ["SV.Props.C15"],
         "runs": [{"component": "lru", "thorough_seeds": 2}],
         "rule": "random Put/HasOrAdd/Get/Peek/Has/Remove/Clear/Register/UnRegister histories over 3-8 keys on lrucache.NewCache (hashicorp LRU) and NewCacheWithSizeInBytes (capacityLRU), capacities 1-6, byte capacities 1..100000, sizes -3..1000; handler invocations collected per call; distinct = distinct (operation kind, canonical output incl. Keys order, Len, bytes, handler multiset) pairs",
@@ -110,14 +110,14 @@ PROPS = {
         "assumptions": ["hashicorp/golang-lru v0.6.0 simplelru and container/list are modelled from their source; handlers run on goroutines: the harness waits for quiescence (bounded) before reading the invocation multiset"],
     },
     "C08": {
-        "theorems": ["SV.Props.C08.batch_operations_have_the_models_effects", "SV.Props.C08.source_flush_test_is_the_models", "SV.Props.C08.get_is_logical_map", "SV.Props.C08.has_agrees_with_get", "SV.Props.C08.put_then_read", "SV.Props.C08.remove_then_read", "SV.Props.C08.flush_invisible", "SV.Props.C08.history_refines_map", "SV.Props.C08.mem_is_a_map", "SV.Props.C08.legacy_F8"],
+        "theorems": ["SV.Props.C08.sharded_history_refines_map", "SV.Props.C08.batch_operations_have_the_models_effects", "SV.Props.C08.source_flush_test_is_the_models", "SV.Props.C08.get_is_logical_map", "SV.Props.C08.has_agrees_with_get", "SV.Props.C08.put_then_read", "SV.Props.C08.remove_then_read", "SV.Props.C08.flush_invisible", "SV.Props.C08.history_refines_map", "SV.Props.C08.mem_is_a_map", "SV.Props.C08.legacy_F8"],
         "modules": ["SV.Props.C08"],
         "runs": [{"component": "persist", "thorough_seeds": 2}],
         "rule": "random Put/Remove/tick/Close+reopen/RangeKeys histories over 3-7 keys (values nil, empty, short, long) on leveldb.DB, leveldb.SerialDB, memorydb and the sharded persister over each (2,3,5 shards), MaxBatchSize 1..100, real LevelDB directories, timer flushes by real waiting (BatchDelaySeconds=1); Get/Has of every key after every operation; distinct = distinct (operation kind, full read-back) pairs",
         "assumptions": ["goleveldb contract: Write(batch) applies the batch atomically and in order, Get/Has/NewIterator read the applied writes, Close/Open preserve them", "timer flush is modelled as an explicit tick event; the harness waits BatchDelaySeconds+0.35s for it"],
     },
     "C09": {
-        "theorems": ["SV.Props.C09.batch_operations_have_the_models_effects", "SV.Props.C09.reopen_preserves_map", "SV.Props.C09.reopen_keeps_invariant", "SV.Props.C09.cycles", "SV.Props.C09.range_after_close"],
+        "theorems": ["SV.Props.C09.sharded_history_refines_map", "SV.Props.C09.sharded_reopen_preserves_map", "SV.Props.C09.sharded_range_after_reopen", "SV.Props.C09.batch_operations_have_the_models_effects", "SV.Props.C09.reopen_preserves_map", "SV.Props.C09.reopen_keeps_invariant", "SV.Props.C09.cycles", "SV.Props.C09.range_after_close"],
         "modules": ["SV.Props.C09"],
         "runs": [{"component": "persist", "thorough_seeds": 2}],
         "rule": "random Put/Remove/tick/Close+reopen/RangeKeys histories over 3-7 keys (values nil, empty, short, long) on leveldb.DB, leveldb.SerialDB, memorydb and the sharded persister over each (2,3,5 shards), MaxBatchSize 1..100, real LevelDB directories, timer flushes by real waiting (BatchDelaySeconds=1); Get/Has of every key after every operation; distinct = distinct (operation kind, full read-back) pairs",
